@@ -84,9 +84,20 @@ def call(ex, node, state):
         if ('fn:' + nm) in ex.ctx.registry:
             return call_contract(ex, state, 'fn:' + nm, [ex.ev(a, state) for a in node.args], kwargs_of(ex, node, state), line)
         raise Unsupported('call of %s at line %d' % (nm, line))
+    if (isinstance(f, ast.Attribute) and f.attr == 'array' and isinstance(f.value, ast.Name) and f.value.id == 'np' and len(node.args) == 1
+            and not node.keywords and isinstance(node.args[0], ast.ListComp) and isinstance(node.args[0].elt, ast.ListComp)):
+        return array_of_nested_comprehension(ex, state, node.args[0], line)
     fv = ex.ev(f, state)
     args = [ex.ev(a, state) for a in node.args]
     kw = kwargs_of(ex, node, state)
+    from vt.e1.values import SBasisFn
+    if isinstance(fv, SBasisFn):
+        # A-basis: psi(x) for a vector x of the state dimension is one real number
+        x = npmodel.need_rank(ex, state, args[0], line) if len(args) == 1 and not kw else None
+        if not isinstance(x, SArr) or len(x.shape) != 1:
+            raise Unsupported('basis function called with something else than one vector at line %d' % line)
+        ex.ctx.oblige(state, 'basis-function-argument', line, x.shape[0] == zi(fv.dim), 'a basis function is evaluated on a vector that is not a state (one column of the data matrix)')
+        return SNum('psi', cplx=z3.BoolVal(False))
     if is_tag(fv, 'modfunc'):
         return modfunc(ex, state, fv[1], fv[2], args, kw, line)
     if is_tag(fv, 'method'):
@@ -99,6 +110,64 @@ def call(ex, node, state):
 def lst_get_(l, j):
     from vt.e1.contract import lst_get
     return lst_get(l, j)
+
+
+def array_of_nested_comprehension(ex, state, comp, line):
+    """np.array([[e(k, j) for j in range(m)] for k in range(n)]) with a scalar e: an (n, m) array.  The element expression is
+    evaluated once for generic indices 0 <= k < n, 0 <= j < m, so its obligations (index bounds, arguments of the basis
+    functions) are proved for every entry.  The ghost role of an axis is the role of the (one) axis or list its index variable
+    is used to index."""
+    from vt.e1.values import index_roles_of
+    inner = comp.elt
+    gens = []
+    for c in (comp, inner):
+        if len(c.generators) != 1 or c.generators[0].ifs or not isinstance(c.generators[0].target, ast.Name):
+            raise Unsupported('nested comprehension at line %d' % line)
+        g = c.generators[0]
+        if not (isinstance(g.iter, ast.Call) and isinstance(g.iter.func, ast.Name) and g.iter.func.id == 'range' and len(g.iter.args) == 1 and not g.iter.keywords):
+            raise Unsupported('nested comprehension over something else than range(n) at line %d' % line)
+        gens.append(g)
+    n = zi(ex.ev(gens[0].iter.args[0], state))
+    sub = state.clone()
+    K = fresh(gens[0].target.id)
+    sub.env[gens[0].target.id] = K
+    sub.assume(z3.And(K >= 0, K < n))
+    m = zi(ex.ev(gens[1].iter.args[0], sub))
+    if any(t.eq(K) for t in _consts(m)):
+        raise Unsupported('ragged nested comprehension at line %d' % line)
+    J = fresh(gens[1].target.id)
+    sub.env[gens[1].target.id] = J
+    sub.assume(z3.And(J >= 0, J < m))
+    m0 = sub.mark
+    e = ex.ev(inner.elt, sub)
+    if not z3.simplify(zi(sub.mark) == zi(m0)).eq(z3.BoolVal(True)):
+        raise Unsupported('nested comprehension whose element allocates at line %d' % line)
+    if isinstance(e, SNum):
+        cx = e.cplx
+    elif is_conc_int(e) or isinstance(e, (float, z3.ArithRef)):
+        cx = z3.BoolVal(False)
+    else:
+        raise Unsupported('nested comprehension of %s at line %d' % (type(e).__name__, line))
+    # np.array([]) of an empty outer list is one-dimensional: the two-dimensional reading needs at least one row
+    ex.ctx.oblige(state, 'array-of-rows-nonempty', line, n >= 1, 'np.array of an empty list of rows is not a matrix')
+    res = npmodel.new_arr(state, [n, z3.If(m > 0, m, z3.IntVal(0))], cx)
+    rk, rj = index_roles_of(K), index_roles_of(J)
+    if len(rk) == 1 and len(rj) == 1:
+        npmodel.set_roles(res, [next(iter(rk)), next(iter(rj))])
+    return res
+
+
+def _consts(t):
+    seen, todo, out = set(), [t], []
+    while todo:
+        x = todo.pop()
+        if x.get_id() in seen:
+            continue
+        seen.add(x.get_id())
+        if z3.is_const(x) and x.decl().kind() == z3.Z3_OP_UNINTERPRETED:
+            out.append(x)
+        todo.extend(x.children())
+    return out
 
 
 def isinstance_(ex, v, t, line):
@@ -248,6 +317,33 @@ def modfunc(ex, state, mod, name, args, kw, line):
         return SList(state.alloc(), None, items=list(npmodel.svd(ex, state, args[0], kw.get('full_matrices', True), kw.get('overwrite_a', False) is True, line)))
     if mod in ('linalg', 'lin') and name in ('qr', 'rq'):
         return qr_rq(ex, state, name, args[0], kw, line)
+    if mod in ('linalg', 'lin') and name == 'lstsq':
+        # scipy.linalg.lstsq(a, b): x (N,) or (N, K) minimising |a x - b|, residues, rank, singular values
+        a, b = npmodel.need_rank(ex, state, args[0], line), npmodel.need_rank(ex, state, args[1], line)
+        if len(a.shape) != 2 or len(b.shape) not in (1, 2):
+            ex.ctx.oblige(state, 'lstsq-rank', line, False, 'lstsq expects a matrix and a vector or matrix')
+            raise Unsupported('lstsq with unexpected ranks at line %d' % line)
+        ex.ctx.oblige(state, 'lstsq-shape', line, a.shape[0] == b.shape[0], 'shape mismatch: a and b should have the same number of rows')
+        # LAPACK gelss/gelsd on an empty matrix raises
+        ex.ctx.oblige(state, 'lstsq-nonempty', line, z3.And(a.shape[0] >= 1, a.shape[1] >= 1), 'lstsq of an empty matrix')
+        if kw.get('overwrite_a') is True:
+            ex.write_buffer(a.buf, state, line, 'LAPACK overwrite_a=True')
+        if kw.get('overwrite_b') is True:
+            ex.write_buffer(b.buf, state, line, 'LAPACK overwrite_b=True')
+        cx = z3.simplify(z3.Or(a.cplx, b.cplx))
+        x = npmodel.new_arr(state, [a.shape[1]] + list(b.shape[1:]), cx)
+        ra, rb = npmodel.roles_of(a), npmodel.roles_of(b)
+        if ra is not None and rb is not None:
+            # the rows of the system are summed over in the normal equations: they must be the same kind of leg
+            ex.ctx.oblige(state, 'sesquilinear-structure', line, z3.BoolVal(ra[0] is None or rb[0] is None or ra[0] == rb[0]),
+                          'lstsq: the rows of the matrix (%s) and of the right-hand side (%s) are different legs' % (ra[0], rb[0]))
+        if ra is not None:
+            npmodel.set_roles(x, [npmodel.dual_role(ra[1])] + (list(rb[1:]) if rb is not None else [None] * (len(b.shape) - 1)))
+        kmin = fresh('k')
+        state.assume(kmin == z3.If(a.shape[0] < a.shape[1], a.shape[0], a.shape[1]))
+        nres = fresh('nres')
+        state.assume(z3.And(nres >= 0, nres <= 1) if len(b.shape) == 1 else z3.And(nres >= 0, nres <= b.shape[1]))
+        return SList(state.alloc(), None, items=[x, npmodel.new_arr(state, [nres], False), fresh('rank'), npmodel.new_arr(state, [kmin], False)])
     if (mod == 'np.linalg' and name == 'solve') or (mod in ('lin', 'linalg') and name == 'solve'):
         a, b = npmodel.need_rank(ex, state, args[0], line), npmodel.need_rank(ex, state, args[1], line)
         if len(a.shape) != 2 or len(b.shape) != 2:
@@ -542,16 +638,24 @@ def qr_rq(ex, state, name, a, kw, line):
     state.assume(k == z3.If(m < n, m, n))
     if kw.get('overwrite_a') is True:
         ex.write_buffer(a.buf, state, line, 'LAPACK overwrite_a=True may clobber the argument buffer')
+    ro = npmodel.roles_of(a)
     if name == 'qr':
         q = npmodel.new_arr(state, [m, k], a.cplx, flags={'isocols': True})
         r = npmodel.new_arr(state, [k, n], a.cplx)
         for x in (q, r):
             x.contig = fresh('ct', 'bool')          # LAPACK results come back in Fortran or C order
+        if ro is not None and not isinstance(ro[1], npmodel.MRole):
+            # a = q r: the new bond is a rank leg of the same kind as the column leg it replaces
+            npmodel.set_roles(q, [ro[0], ro[1]])
+            npmodel.set_roles(r, [ro[1], ro[1]])
         return SList(state.alloc(), None, items=[q, r])
     r = npmodel.new_arr(state, [m, k], a.cplx)
     q = npmodel.new_arr(state, [k, n], a.cplx, flags={'isorows': True})
     for x in (q, r):
         x.contig = fresh('ct', 'bool')
+    if ro is not None and not isinstance(ro[0], npmodel.MRole):
+        npmodel.set_roles(q, [ro[0], ro[1]])
+        npmodel.set_roles(r, [ro[0], ro[0]])
     return SList(state.alloc(), None, items=[r, q])
 
 
